@@ -82,6 +82,14 @@ def gen_txns(rnd):
             t['match_info'] = {'pattern': rnd.choice(PATTERNS + [rnd.choice(HOSTILE)]), 'source': 'user',
                                'tags': list(tags), 'tag_sources': {tg: {'rule': 'R', 'pattern': 'p'} for tg in tags}}
         out.append(t)
+    if rnd.random() < .06:
+        # income and spending cancel to the cent: a cash flow of exactly 0 is a figure like any other (every format reports 0, not a fallback)
+        keep = [t for t in out if not ({x.lower() for x in t['tags']} & {'income', 'transfer', 'investment'}) and t['amount'] > 0][:3]
+        spend = round(sum(t['amount'] for t in keep), 2)
+        if keep and spend > 0 and round(sum(round(t['amount'], 2) for t in keep), 2) == spend and all(round(t['amount'], 2) == t['amount'] for t in keep):
+            out = keep + [dict(keep[0], amount=-spend, tags=['income'], merchant='Employer Zero', description='Employer Zero', raw_description='PAYROLL ZERO', match_info=None,
+                               extra_fields=None)]
+            out[-1].pop('match_info'); out[-1].pop('extra_fields')
     return out, hostile
 
 
